@@ -105,3 +105,15 @@ pub fn fasta_layout(records: &[Vec<u8>], layout: u64) -> Vec<u8> {
 pub fn natural_layout(records: &[Vec<u8>]) -> u64 {
     crate::explore::hash64(&records)
 }
+
+/// Put a long stale file where a command is about to write its output: an output file that already exists must be
+/// replaced, not overwritten from the start (its old tail would survive a shorter result).
+pub fn stale(path: &str) {
+    let mut junk = Vec::with_capacity(70_000);
+    let mut i = 0;
+    while junk.len() < 65_536 {
+        junk.extend_from_slice(format!(">STALE_{i}\nACGTSTALEACGTSTALEACGTSTALEACGTSTALE\n").as_bytes());
+        i += 1;
+    }
+    let _ = std::fs::write(path, &junk);
+}
